@@ -216,10 +216,15 @@ def run_case(seed, tier, rec, st):
                 if j % 3 == 0:
                     ttl = W if is_dc else common.eval_type(fam, tt)
                     routes.append(("func", lambda: F["fe"](v, ttl), lambda doc: F["fd"](doc, ttl)))
+                try:
+                    earlier = bool(common.earlier_member(ref, tt, v))
+                except Exception:
+                    earlier = None
                 for rname, ef, df in routes:
                     facts = {"format": fname, "route": rname, "type_kinds": sorted({n[0] for n in common.deep_nodes(fam, tt)}),
                              "union_copy_shortcut": common.union_copy_fact(fam, tt),
-                             "field_engine_over_format_native": common.engine_over_native(fam, tt, F["natives"])}
+                             "field_engine_over_format_native": common.engine_over_native(fam, tt, F["natives"]),
+                             "earlier_nonscalar_member_before_value_member": earlier}
                     det = lambda **kw: dict({"format": fname, "route": rname, "target": tname, "type": tast.render(tt),
                                              "value": common.short(v, 400), "family": fam.to_json()}, **kw)
                     try:
@@ -276,7 +281,7 @@ def run_case(seed, tier, rec, st):
                 for a, b in zip(names, names[1:]):
                     if not deep_eq(parsed[a], parsed[b], key_order=True):
                         rec.violation(f"{fname}:routes-disagree:{a}-vs-{b}", {"type": tast.render(tt), "a": common.short(parsed[a]), "b": common.short(parsed[b])},
-                                      {"format": fname})
+                                      {"format": fname, "earlier_nonscalar_member_before_value_member": earlier})
                 rec.nontrivial((fname, tast.shape_hash(inner), repr(v)[:200]))
                 if j == 0 and tname == "dataclass":
                     rec.sample({"format": fname, "mixins": mixins, "inner_type": tast.render(inner), "value": common.short(v, 200),
